@@ -189,6 +189,7 @@ func (lv *c10Live) execReal(e *Env, c int, op *c10Op) (recorded, ok bool) {
 		lv.params = *op.SetParams
 	}
 	c10GhostParams(a, lv.ctx, lv.params)
+	lv.checkParams(e, c)
 	gasUsed := res0.GasUsed
 	r.GasUsed = fmt.Sprint(gasUsed)
 	// at keeper level nobody paid the fee: put limit * price into the collector (fee + the refund of unused gas)
